@@ -395,6 +395,44 @@ def run(ctx, prog):
         ctx.inst('C16.R5', mp.short.replace('ann_backend::', ''), 'every rewrite of the list was offered the incoming node', bool(S) and bool(offers) and not blind,
                  ('set_layer_neighbors at %s is reachable without %s having been pushed into the list or its candidates' % (mp.loc_of(blind[0]), incoming)) if blind else
                  '%d rewrites, %d pushes of %s, %d "already in the list" edges' % (len(S), len(offers), incoming, len(present)))
+    # compute_search_k compensates the tombstone share: it must ask for about k · slots / live candidates. An INTEGER quotient that is multiplied afterwards has lost
+    # its fractional part (45 % tombstones → factor 1 instead of 1.8 → 6–7 live results for k = 10): no integer division may feed a multiplication there
+    ck = ctx.body('C16.R3', 'hnsw_backend::compute_search_k')
+    if ck is not None:
+        ofk = flow.Origin(ck)
+
+        def _has_int_div(e, depth=0):
+            if depth > 14 or not isinstance(e, tuple):
+                return False
+            if e[0] == 'bin' and e[1].startswith('Div'):
+                # operands that are integers (no float cast below)
+                return not ('f64' in flow.render(e) or 'f32' in flow.render(e))
+            if e[0] == 'cast':
+                return False if e[2] in ('f64', 'f32') and False else _has_int_div(e[1], depth + 1)
+            if e[0] in ('field', 'downcast'):
+                return _has_int_div(e[1], depth + 1)
+            if e[0] == 'phi':
+                return any(_has_int_div(a, depth + 1) for a in e[1])
+            return False
+        trunc = []
+        for i_, blk in enumerate(ck.blocks):
+            if i_ not in ck.live_blocks():
+                continue
+            for st in blk['s']:
+                rv = st.get('rv')
+                if rv and rv.get('k') == 'bin' and rv['op'].startswith('Mul'):
+                    for side in ('a', 'b'):
+                        if _has_int_div(ofk.of_operand(rv[side])):
+                            trunc.append(ck.loc_of(i_))
+        for c in ck.calls:
+            if c.callee and re.search(r'(saturating|wrapping|checked|overflowing)_mul$', c.callee):
+                for a in c.args:
+                    if a.get('k') in ('mv', 'cp') and _has_int_div(ofk.of_operand(a)):
+                        trunc.append(c.loc)
+        ctx.inst('C16.R3', ck.short, 'the oversampling factor is not truncated: no integer quotient is multiplied', not trunc,
+                 ('an integer quotient is multiplied at %s: the fractional part of slots / live is lost and the backend under-fetches whenever the ratio is not whole' % trunc[0]) if trunc
+                 else 'no multiplication of an integer quotient in compute_search_k')
+
     # ------------------------------------------------------------------ R6 the distance kernels see every coordinate once
     ctx.rule('C16.R6', 'the graph is built and searched under the metric the user asked for only if every distance kernel accumulates every coordinate exactly once: the '
                        'element ranges read by the loops of each SIMD kernel partition 0..len (symbolic chaining of the loop spans, kvstatic/cover.py — same analysis as '
